@@ -21,7 +21,7 @@ def stress(c, binary, configs, timeout=240):
     for cfg in configs:
         for g in ("1", "0"):
             env = dict(GOENV, GODEBUG="asynctimerchan=" + g)
-            args = ([cfg[0], str(c.seed)] + [str(x) for x in cfg[1:]]) if cfg and cfg[0] in ("wake", "extreme", "cancelwake", "bulk") else [str(c.seed)] + [str(x) for x in cfg]
+            args = ([cfg[0], str(c.seed)] + [str(x) for x in cfg[1:]]) if cfg and cfg[0] in ("wake", "extreme", "cancelwake", "bulk", "delayhook") else [str(c.seed)] + [str(x) for x in cfg]
             runs += 1
             try:
                 p = subprocess.run([binary, "c08-dq-stress"] + args, stdout=subprocess.PIPE, stderr=subprocess.PIPE,
@@ -35,7 +35,7 @@ def stress(c, binary, configs, timeout=240):
             for l in lines[:3]:
                 kind = l.split()[1].rstrip(":")
                 hits.append({"kind": kind, "result": l[len("VIOLATION "):][:400], "asynctimerchan": g,
-                             "how": "GODEBUG=asynctimerchan=%s h c08-dq-stress %s   (args: seed capacity producers consumers perProducer [maxDelayMs tolMs cancelPct] | wake seed consumers [rounds] | extreme seed [rounds] | cancelwake seed [rounds] | bulk seed [N ...])" % (g, " ".join(args)),
+                             "how": "GODEBUG=asynctimerchan=%s h c08-dq-stress %s   (args: seed capacity producers consumers perProducer [maxDelayMs tolMs cancelPct] | wake seed consumers [rounds] | extreme seed [rounds] | cancelwake seed [rounds] | bulk seed [N ...] | delayhook seed [rounds])" % (g, " ".join(args)),
                              "goroutine_dump": err[-3000:] if kind in ("hang", "late-wakeup", "late-cancel", "capacity-after-cancel") or kind.startswith("lost-wakeup") else ""})
     return hits, runs
 
@@ -88,6 +88,8 @@ def run(c, binary, labels, tier, focus):
         configs += [("bulk", 100, 300, 1000)] if tier == "quick" else [("bulk", 100, 300, 1000, 2500), ("bulk", 64, 65, 129, 257, 513)]
     # directed scenario (C09): full bounded queue, parked producers, Dequeue and cancellation of a producer back to back
     configs += [("cancelwake", 2)] if tier == "quick" else [("cancelwake", 12)]
+    # directed scenario (C09): an expired element is enqueued while the consumer evaluates the head's Delay() (hooked element type)
+    configs += [("delayhook", 2)] if tier == "quick" else [("delayhook", 8)]
     hits, runs = stress(c, binary, configs)
     if broken and not hits:
         more = [(cap, p, cn, 400, d) for cap in (0, 1, 2) for (p, cn) in ((1, 4), (4, 1), (6, 6)) for d in (3, 20)]
@@ -95,7 +97,7 @@ def run(c, binary, labels, tier, focus):
         hits += h2
         runs += r2
     c.cov["dq_stress"] = {"runs": runs, "monitor_hits": len(hits), "timer_semantics": ["asynctimerchan=1", "asynctimerchan=0"],
-                          "monitors": ["early", "once", "cap", "hang", "order(tolerance)", "ctxeffect", "late-wakeup (directed scenario wake)", "order / late-wakeup / early with saturating delays (directed scenario extreme)", "lost-wakeup:enqueue / late-cancel / capacity-after-cancel (directed scenario cancelwake)", "not-earliest / early / once against a sorted reference (directed scenario bulk-order, focus c08)"]}
+                          "monitors": ["early", "once", "cap", "hang", "order(tolerance)", "ctxeffect", "late-wakeup (directed scenario wake)", "order / late-wakeup / early with saturating delays (directed scenario extreme)", "lost-wakeup:enqueue / late-cancel / capacity-after-cancel (directed scenario cancelwake)", "not-earliest / early / once against a sorted reference (directed scenario bulk-order, focus c08)", "lost-wakeup:dequeue (directed scenario enqueue-during-delay, hooked Delay())"]}
     # 4. report
     found = False
     for m in mism[:3]:
